@@ -272,7 +272,7 @@ DICT_KINDS = ["operator", "expvals", "parities", "value_estimate", "layers", "co
 class World:
     PID = PID
     TIERS = {
-        "quick": {"runs": 30000, "budget_s": 45, "determinism_seeds": 16, "chunk": 200},
+        "quick": {"runs": 16000, "budget_s": 45, "determinism_seeds": 16, "chunk": 200},
         "thorough": {"runs": 1500000, "budget_s": 900, "determinism_seeds": 200, "chunk": 500},
     }
     RULE = ("one case = one seeded session of save / load / dict-round-trip / text-round-trip steps over eleven artefact "
